@@ -50,23 +50,32 @@ func init() {
 		res := make([]*oracle.Res, len(qs))
 		errs := make([]error, len(qs))
 		spans := make([]span, len(qs))
-		var wg sync.WaitGroup
-		start := make(chan struct{})
-		for i, a := range qs {
-			wg.Add(1)
-			go func(i int, a core.Action) {
-				defer wg.Done()
-				s := st.Session()
-				s.Shuffle = c.Shuffle
-				s.Delay = c.Delay + uint64(i)*7919
-				<-start
-				spans[i].a = time.Now()
-				res[i], errs[i] = Run(context.Background(), eng, s, nil, a.Query, a.Start, a.End, a.Step)
-				spans[i].b = time.Now()
-			}(i, a)
+		// two waves on the same engine: whatever the first wave leaves behind
+		// (pools, caches) is there when the second wave runs concurrently
+		waves := [][2]int{{0, len(qs)}}
+		if len(qs) >= 4 && c.Delay%2 == 0 {
+			waves = [][2]int{{0, len(qs) / 2}, {len(qs) / 2, len(qs)}}
 		}
-		close(start)
-		wg.Wait()
+		for _, w := range waves {
+			var wg sync.WaitGroup
+			start := make(chan struct{})
+			for i := w[0]; i < w[1]; i++ {
+				a := qs[i]
+				wg.Add(1)
+				go func(i int, a core.Action) {
+					defer wg.Done()
+					s := st.Session()
+					s.Shuffle = c.Shuffle
+					s.Delay = c.Delay + uint64(i)*7919
+					<-start
+					spans[i].a = time.Now()
+					res[i], errs[i] = Run(context.Background(), eng, s, nil, a.Query, a.Start, a.End, a.Step)
+					spans[i].b = time.Now()
+				}(i, a)
+			}
+			close(start)
+			wg.Wait()
+		}
 		tol := TolOf(c)
 		shapes := map[string]bool{}
 		for i, a := range qs {
